@@ -130,3 +130,35 @@ Example C07_lattice_example :
   chebyshev [3; -1; 0; 2] [1; -1; 4; 2] = 4 /\ hamming [3; -1; 0; 2] [1; -1; 4; 2] = (2, 4) /\
   bray_curtis [3; 1; 0; 2] [1; 1; 4; 2] = (6, 14) /\ bray_curtis [0; 0] [0; 0] = (0, 1).
 Proof. vm_compute. repeat split; reflexivity. Qed.
+
+(* ------------------------------------------------------------------------------
+   The angular family (cosine, alternative_cosine, true_angular, dot, alternative_dot):
+   the accumulated triple (result, norm_x, norm_y) obeys Cauchy-Schwarz, so the ratio
+   result / sqrt(norm_x * norm_y) handed to the transcendental wrapper has a positive
+   radicand, a non-zero divisor and lies in [-1, 1] - the exact-arithmetic root of
+   "never NaN" and of the range [0, 2]; identical inputs give the ratio exactly 1
+   (distance 0) or take the zero-vector branch (0.0); the value is symmetric. *)
+Theorem C07_cauchy_schwarz : forall x y,
+  let '(r, nx, ny) := cos_loop 0 0 0 x y in 0 <= nx /\ 0 <= ny /\ r * r <= nx * ny.
+Proof. exact cauchy_schwarz. Qed.
+Print Assumptions C07_cauchy_schwarz.
+
+Theorem C07_cosine_ratio_in_range : forall x y r q, cosine x y = ARatio r q -> 0 < q /\ r * r <= q.
+Proof. exact cosine_ratio_in_range. Qed.
+Print Assumptions C07_cosine_ratio_in_range.
+
+Theorem C07_cosine_identical : forall x,
+  cosine x x = AZero \/ exists r, 0 < r /\ cosine x x = ARatio r (r * r) /\ alternative_cosine x x = ARatio r (r * r).
+Proof. exact cosine_identical. Qed.
+Print Assumptions C07_cosine_identical.
+
+Theorem C07_angular_symmetric : forall x y,
+  (cosine x y = cosine y x /\ alternative_cosine x y = alternative_cosine y x) /\
+  (dot x y = dot y x /\ alternative_dot x y = alternative_dot y x).
+Proof. intros x y. split; [apply cosine_symmetric | apply dot_symmetric]. Qed.
+Print Assumptions C07_angular_symmetric.
+
+Example C07_angular_example :
+  cosine [3; 0; -4] [3; 0; -4] = ARatio 25 625 /\ cosine [1; 2] [-2; 1] = ARatio 0 25 /\ cosine [0; 0] [0; 0] = AZero /\
+  cosine [0; 0] [1; 0] = AOne /\ alternative_cosine [1; 2] [-2; 1] = AMax /\ dot [1; 2] [2; 1] = ARatio 4 1.
+Proof. vm_compute. repeat split; reflexivity. Qed.
